@@ -1,3 +1,4 @@
+// serves: C06 C14 C19
 // C06 / C14 / C19: the serialization layer (trait Serialize, its blanket impls, the impls of the raw / integer /
 // plain bit vectors and their support structures, skip_option / absent_option).
 // Values are described to Coq by RECIPES (the generated data), never by their serialized form; the Coq side builds
